@@ -237,7 +237,7 @@ def run_case(case):
                 inv = _grid_ok(r)
                 if inv:
                     bdim = inv.split()[1] if inv.startswith("dimension") else "grid"
-                    V.append({"oracle": "invariant", "sig": "c10:invariant:%s:%s:%s-grid" % (oname, bdim, "closed" if m.closed else "partial"), "msg": "start %s, program %s: %s" % (sname, p2, inv), "focus": focus})
+                    V.append({"oracle": "invariant", "sig": "c10:invariant:%s:%s:%s-grid" % (oname, bdim, "closed" if _closed(u.uxgrid) else "partial"), "msg": "start %s, program %s: %s" % (sname, p2, inv), "focus": focus})
                     continue  # reported at its source; programs are not extended from an inconsistent array
                 if diverged:
                     continue  # reported at its source; the shadow no longer mirrors this array
@@ -253,6 +253,22 @@ def run_case(case):
     res["axes"] = {"start": {sname: res["evaluations"]}, "ops": opstat, "depth": {str(depth): res["transitions"]}}
     res["sample"] = {"mesh": case["mesh"], "start": sname, "first_op": _ops(None)[case["first"]][0] if "first" in case else "*", "depth": depth, "distinct_states": len(seen)}
     return res
+
+
+def _closed(g):
+    """every edge of the grid the operation was applied to (not of the start grid: subsets of closed grids are partial) has two faces"""
+    from collections import Counter
+
+    try:
+        fn = np.asarray(g._ds["face_node_connectivity"].values)
+        c = Counter()
+        for row in fn:
+            r = [int(i) for i in row if i >= 0]
+            for j in range(len(r)):
+                c[frozenset((r[j], r[(j + 1) % len(r)]))] += 1
+        return bool(c) and all(v == 2 for v in c.values())
+    except Exception:
+        return False
 
 
 def cases(tier):
